@@ -78,7 +78,9 @@ type c02Run struct {
 	dir     string
 	hookCh  []chan string   // per sender: "parked" | "gate"
 	gate    []chan struct{} // per sender: release of the "aligned" hook
-	work    []chan *workerpb.Event
+	work    []chan []*workerpb.Event
+	rest    [][]string // per sender: kinds of the events of its HandleEventBatch call not yet handed to HandleEvent
+	cancels []context.CancelFunc
 	done    []chan error
 	status  []byte // '-' idle, 'p' at the gate, 'k' parked
 	quit    chan struct{}
@@ -349,7 +351,9 @@ func c02Impl(c lib.Case) []string {
 		srIDs[i] = "s" + strconv.Itoa(i)
 		r.hookCh = append(r.hookCh, make(chan string, 8))
 		r.gate = append(r.gate, make(chan struct{}))
-		r.work = append(r.work, make(chan *workerpb.Event))
+		r.work = append(r.work, make(chan []*workerpb.Event))
+		r.rest = append(r.rest, nil)
+		r.cancels = append(r.cancels, nil)
 		r.done = append(r.done, make(chan error, 1))
 		r.status[i] = '-'
 		r.inflight = append(r.inflight, "")
@@ -450,15 +454,20 @@ func c02Impl(c lib.Case) []string {
 		go func() {
 			for {
 				select {
-				case ev := <-r.work[i]:
+				case batch := <-r.work[i]:
+					cctx, cancel := context.WithCancel(ctx) // the context of this one RPC
+					r.mu.Lock()
+					r.cancels[i] = cancel
+					r.mu.Unlock()
 					err := func() (err error) {
 						defer func() {
 							if p := recover(); p != nil {
 								err = fmt.Errorf("panic %v", p)
 							}
 						}()
-						return client.HandleEventBatch(ctx, []*workerpb.Event{ev})
+						return client.HandleEventBatch(cctx, batch)
 					}()
+					cancel()
 					select {
 					case r.done[i] <- err:
 					case <-r.quit:
@@ -493,38 +502,84 @@ func c02Impl(c lib.Case) []string {
 		}
 		return s
 	}
-	send := func(i int, ev *workerpb.Event) string {
+	// classify turns sender i's first hook event of a HandleEvent call into passed/parked
+	classify := func(i int, h string) string {
+		if h == "parked" && op.VerifCheckpointReleased() {
+			// the record's channel is already closed: the wait returns at once and the call reaches the gate
+			select {
+			case h = <-r.hookCh[i]:
+			case err := <-r.done[i]:
+				r.status[i] = '-'
+				r.rest[i] = nil
+				return "returned:" + c02Err(err)
+			case <-time.After(c02Wait):
+				return "timeout"
+			}
+		}
+		if h == "parked" {
+			r.status[i] = 'k'
+			return "parked"
+		}
+		r.status[i] = 'p'
+		return "passed"
+	}
+	send := func(i int, batch []*workerpb.Event, kinds []string) string {
 		if r.status[i] != '-' {
 			return "busy"
 		}
 		select {
-		case r.work[i] <- ev:
+		case r.work[i] <- batch:
 		case <-time.After(c02Wait):
 			return "timeout"
 		}
 		select {
 		case h := <-r.hookCh[i]:
-			if h == "parked" && op.VerifCheckpointReleased() {
-				// the record's channel is already closed: the wait returns at once and the call reaches the gate
-				select {
-				case h = <-r.hookCh[i]:
-				case err := <-r.done[i]:
-					return "returned:" + c02Err(err)
-				case <-time.After(c02Wait):
-					return "timeout"
-				}
+			res := classify(i, h)
+			if res == "passed" || res == "parked" {
+				r.inflight[i] = kinds[0]
+				r.rest[i] = append([]string(nil), kinds[1:]...)
 			}
-			if h == "parked" {
-				r.status[i] = 'k'
-				return "parked"
-			}
-			r.status[i] = 'p'
-			return "passed"
+			return res
 		case err := <-r.done[i]:
 			return "returned:" + c02Err(err)
 		case <-time.After(c02Wait):
 			return "timeout"
 		}
+	}
+	// continueCall: after the outcome of the current event has been recorded, account for the call's progress
+	continueCall := func(i int, hook string) string {
+		if hook == "" {
+			r.rest[i] = nil
+			return ""
+		}
+		if len(r.rest[i]) == 0 {
+			// the call went on although the batch was exhausted: should be impossible
+			return " next:unexpected-" + classify(i, hook)
+		}
+		r.inflight[i] = r.rest[i][0]
+		r.rest[i] = r.rest[i][1:]
+		return " next:" + classify(i, hook)
+	}
+	mkEvent := func(w []string) (*workerpb.Event, string, bool) {
+		switch {
+		case len(w) == 4 && w[0] == "ev":
+			key := lib.UnHex(w[1])
+			p, _ := strconv.Atoi(w[2])
+			t, _ := strconv.Atoi(w[3])
+			r.mu.Lock()
+			r.keys[string(key)] = true
+			r.mu.Unlock()
+			return &workerpb.Event{Event: &workerpb.Event_KeyedEvent{KeyedEvent: &handlerpb.KeyedEvent{Key: key, Value: []byte{byte(p), byte(t)}}}}, "ev", true
+		case len(w) == 2 && w[0] == "wm":
+			ts, _ := strconv.Atoi(w[1])
+			return &workerpb.Event{Event: &workerpb.Event_Watermark{Watermark: &workerpb.Watermark{Timestamp: timestamppb.New(time.UnixMilli(int64(ts)))}}}, "wm", true
+		case len(w) == 2 && w[0] == "bar":
+			id, _ := strconv.ParseUint(w[1], 10, 64)
+			return &workerpb.Event{Event: &workerpb.Event_CheckpointBarrier{CheckpointBarrier: &workerpb.CheckpointBarrier{CheckpointId: id}}}, "bar " + strconv.FormatUint(id, 10), true
+		case len(w) == 1 && w[0] == "done":
+			return &workerpb.Event{Event: &workerpb.Event_SourceComplete{SourceComplete: &workerpb.SourceCompleteEvent{}}}, "done", true
+		}
+		return nil, "", false
 	}
 	// the observable outcome of sender i's HandleEvent call having returned with herr
 	finishGo := func(i int, herr error, snapsBefore int, withRel bool) string {
@@ -608,7 +663,7 @@ func c02Impl(c lib.Case) []string {
 			case len(f) == 2 && f[0] == "go":
 				x, err := strconv.Atoi(f[1])
 				res = "noop"
-				if err == nil && x >= 0 && x < k && len(r.queue) == 0 && x != r.held && r.status[x] == 'p' &&
+				if err == nil && x >= 0 && x < k && len(r.queue) == 0 && x != r.held && r.status[x] == 'p' && len(r.rest[x]) == 0 &&
 					(r.inflight[x] == "ev" || r.inflight[x] == "wm") {
 					select {
 					case r.gate[x] <- struct{}{}:
@@ -670,6 +725,16 @@ func c02Impl(c lib.Case) []string {
 				if i, err := strconv.Atoi(f[1]); err != nil || i < 0 || i >= k {
 					res = "bad-op"
 				}
+			case len(f) >= 3 && f[0] == "sendb":
+				res = "consumer-held"
+				for _, w := range f[2:] {
+					if _, _, ok := mkEvent(strings.Split(w, ":")); !ok {
+						res = "bad-op"
+					}
+				}
+				if i, err := strconv.Atoi(f[1]); err != nil || i < 0 || i >= k {
+					res = "bad-op"
+				}
 			default:
 				res = "consumer-held"
 			}
@@ -686,34 +751,51 @@ func c02Impl(c lib.Case) []string {
 		hold := false
 		if len(f) == 2 && f[0] == "gohold" {
 			f[0] = "go"
-			if i, err := strconv.Atoi(f[1]); err == nil && i >= 0 && i < k && r.status[i] == 'p' && strings.HasPrefix(r.inflight[i], "bar ") {
+			if i, err := strconv.Atoi(f[1]); err == nil && i >= 0 && i < k && r.status[i] == 'p' && strings.HasPrefix(r.inflight[i], "bar ") && len(r.rest[i]) == 0 {
 				hold = true
 			}
 		}
 		switch {
-		case len(f) >= 3 && f[0] == "send":
+		case len(f) >= 3 && (f[0] == "send" || f[0] == "sendb"):
 			i, err := strconv.Atoi(f[1])
-			if err != nil || i < 0 || i >= k {
+			if err != nil {
 				break
 			}
-			switch {
-			case f[2] == "ev" && len(f) == 6:
-				key := lib.UnHex(f[3])
-				p, _ := strconv.Atoi(f[4])
-				t, _ := strconv.Atoi(f[5])
-				r.mu.Lock()
-				r.keys[string(key)] = true
-				r.mu.Unlock()
-				res = send(i, &workerpb.Event{Event: &workerpb.Event_KeyedEvent{KeyedEvent: &handlerpb.KeyedEvent{Key: key, Value: []byte{byte(p), byte(t)}}}})
-			case f[2] == "wm" && len(f) == 4:
-				ts, _ := strconv.Atoi(f[3])
-				res = send(i, &workerpb.Event{Event: &workerpb.Event_Watermark{Watermark: &workerpb.Watermark{Timestamp: timestamppb.New(time.UnixMilli(int64(ts)))}}})
-			case f[2] == "done" && len(f) == 3:
-				res = send(i, &workerpb.Event{Event: &workerpb.Event_SourceComplete{SourceComplete: &workerpb.SourceCompleteEvent{}}})
-			case f[2] == "bar" && len(f) == 4:
-				id, _ := strconv.ParseUint(f[3], 10, 64)
-				res = send(i, &workerpb.Event{Event: &workerpb.Event_CheckpointBarrier{CheckpointBarrier: &workerpb.CheckpointBarrier{CheckpointId: id}}})
+			var batch []*workerpb.Event
+			var kinds []string
+			okItems := true
+			if f[0] == "send" {
+				ev, kind, ok := mkEvent(f[2:])
+				okItems = ok
+				batch, kinds = []*workerpb.Event{ev}, []string{kind}
+			} else {
+				for _, w := range f[2:] {
+					ev, kind, ok := mkEvent(strings.Split(w, ":"))
+					okItems = okItems && ok
+					batch, kinds = append(batch, ev), append(kinds, kind)
+				}
 			}
+			if !okItems || i < 0 || i >= k {
+				break
+			}
+			res = send(i, batch, kinds)
+		case len(f) == 2 && f[0] == "cancel":
+			i, err := strconv.Atoi(f[1])
+			res = "noop"
+			if err != nil || i < 0 || i >= k || r.status[i] == '-' {
+				break
+			}
+			r.mu.Lock()
+			cancel := r.cancels[i]
+			r.mu.Unlock()
+			if cancel != nil {
+				cancel()
+			}
+			if r.status[i] == 'k' {
+				time.Sleep(20 * time.Millisecond) // a parked call must stay parked; give a wrong implementation time to move
+				drain()
+			}
+			res = "cancelled"
 		case len(f) == 2 && f[0] == "go":
 			i, err := strconv.Atoi(f[1])
 			if err != nil || i < 0 || i >= k {
@@ -729,6 +811,7 @@ func c02Impl(c lib.Case) []string {
 			r.takeLog()
 			snapsBefore := r.snaps
 			r.holdArmed.Store(hold)
+			hook := ""
 			select {
 			case r.gate[i] <- struct{}{}:
 			case <-time.After(c02Wait):
@@ -741,6 +824,8 @@ func c02Impl(c lib.Case) []string {
 			select {
 			case herr = <-r.done[i]:
 				r.holdArmed.Store(false) // the barrier did not complete the checkpoint: nothing was flushed
+			case hook = <-r.hookCh[i]:
+				r.holdArmed.Store(false) // the call went on with its next event
 			case <-r.heldCh:
 				// the consumer is inside the last barrier's handler, the parked senders have been woken
 				var rel []string
@@ -766,6 +851,9 @@ func c02Impl(c lib.Case) []string {
 				break
 			}
 			res = finishGo(i, herr, snapsBefore, true)
+			if !r.gone {
+				res += continueCall(i, hook)
+			}
 			break
 		case len(f) == 1 && (f[0] == "tick" || f[0] == "stale"):
 			timer.mu.Lock()
@@ -821,6 +909,7 @@ func c02Impl(c lib.Case) []string {
 				}
 				select { // a sender parked on the abandoned checkpoint is turned away with an error
 				case err := <-r.done[j]:
+					r.rest[j] = nil
 					if err != nil {
 						r.status[j] = '-'
 						ab = append(ab, strconv.Itoa(j))
@@ -856,14 +945,6 @@ func c02Impl(c lib.Case) []string {
 				ck = fmt.Sprintf("%d:%s", id, strings.Join(ms, "."))
 			}
 			res = "ck=" + ck + " slots=" + string(r.status)
-		}
-		if len(f) >= 3 && f[0] == "send" && (res == "passed" || res == "parked") {
-			i, _ := strconv.Atoi(f[1])
-			r.inflight[i] = f[2]
-			if f[2] == "bar" && len(f) >= 4 {
-				id, _ := strconv.ParseUint(f[3], 10, 64)
-				r.inflight[i] = "bar " + strconv.FormatUint(id, 10)
-			}
 		}
 		if strings.Contains(res, "timeout") || strings.Contains(res, "!stuck") {
 			timedOut = true
@@ -947,6 +1028,7 @@ type c02Sim struct {
 	stale   bool // completed record left in place
 	active  map[int]bool
 	gone    bool
+	batch   []int // per sender: events of the current HandleEventBatch call still to come
 }
 
 // completes reports whether sender i stands at the gate with the barrier that completes the checkpoint
@@ -975,6 +1057,9 @@ func (s *c02Sim) redeploy() {
 	for j := 0; j < s.k; j++ {
 		if s.status[j] == 'k' {
 			s.status[j] = '-'
+			if s.batch != nil {
+				s.batch[j] = 0
+			}
 		}
 	}
 	s.active = nil
@@ -990,7 +1075,22 @@ func (s *c02Sim) send(i int) {
 	}
 }
 
+// run: the consumer handles sender i's current event; then the sender's call goes on with its next event unless
+// the event failed (mismatch, failed ack)
 func (s *c02Sim) run(i int) {
+	ok := s.run1(i)
+	if s.batch == nil {
+		return
+	}
+	if ok && !s.gone && s.batch[i] > 0 && s.pos[i] < len(s.scripts[i]) {
+		s.batch[i]--
+		s.send(i)
+	} else {
+		s.batch[i] = 0
+	}
+}
+
+func (s *c02Sim) run1(i int) bool {
 	it := strings.Fields(s.item[i])
 	s.status[i] = '-'
 	if it[0] == "done" {
@@ -1002,10 +1102,10 @@ func (s *c02Sim) run(i int) {
 		}
 		delete(s.active, i)
 		s.gone = len(s.active) == 0
-		return
+		return true
 	}
 	if it[0] != "bar" {
-		return
+		return true
 	}
 	id, _ := strconv.Atoi(it[1])
 	if !s.inCk {
@@ -1015,10 +1115,11 @@ func (s *c02Sim) run(i int) {
 		}
 	}
 	if id != s.ckID {
-		return
+		return false
 	}
 	delete(s.missing, i)
 	if len(s.missing) == 0 {
+		failed := s.fail
 		s.inCk, s.stale = s.fail, s.fail
 		s.fail = false
 		for j := 0; j < s.k; j++ {
@@ -1026,7 +1127,9 @@ func (s *c02Sim) run(i int) {
 				s.status[j] = 'p'
 			}
 		}
+		return !failed
 	}
+	return true
 }
 
 var c02Keys = []string{"61", "62", "6162", "00ff"}
@@ -1086,7 +1189,7 @@ func c02Scripts(r *lib.Rng, k int, tier string) [][]string {
 }
 
 func c02Schedule(r *lib.Rng, k int, scripts [][]string) []string {
-	sim := &c02Sim{k: k, scripts: scripts, pos: make([]int, k), status: make([]byte, k), item: make([]string, k)}
+	sim := &c02Sim{k: k, scripts: scripts, pos: make([]int, k), status: make([]byte, k), item: make([]string, k), batch: make([]int, k)}
 	for i := range sim.status {
 		sim.status[i] = '-'
 	}
@@ -1134,16 +1237,33 @@ func c02Schedule(r *lib.Rng, k int, scripts [][]string) []string {
 		}
 		switch ch.kind {
 		case "send":
-			ops = append(ops, fmt.Sprintf("send %d %s", ch.i, scripts[ch.i][sim.pos[ch.i]]))
+			// one HandleEventBatch call with 1..3 events; a barrier may sit anywhere in it
+			n := 1
+			if r.Chance(1, 2) {
+				n = r.Range(2, 3)
+			}
+			if rem := len(scripts[ch.i]) - sim.pos[ch.i]; n > rem {
+				n = rem
+			}
+			if n == 1 {
+				ops = append(ops, fmt.Sprintf("send %d %s", ch.i, scripts[ch.i][sim.pos[ch.i]]))
+			} else {
+				words := []string{"sendb", strconv.Itoa(ch.i)}
+				for _, it := range scripts[ch.i][sim.pos[ch.i] : sim.pos[ch.i]+n] {
+					words = append(words, strings.ReplaceAll(it, " ", ":"))
+				}
+				ops = append(ops, strings.Join(words, " "))
+			}
+			sim.batch[ch.i] = n - 1
 			sim.send(ch.i)
 		case "go":
-			if sim.completes(ch.i) && r.Chance(1, 3) {
+			if sim.completes(ch.i) && sim.batch[ch.i] == 0 && r.Chance(1, 3) {
 				// stop the consumer between waking the parked senders and the flush+capture; let one woken (or
 				// waiting) sender run on; resume
 				ops = append(ops, fmt.Sprintf("gohold %d", ch.i))
 				var cand []int
 				for j := 0; j < k; j++ {
-					if j != ch.i && sim.status[j] != '-' && (strings.HasPrefix(sim.item[j], "ev ") || strings.HasPrefix(sim.item[j], "wm ")) {
+					if j != ch.i && sim.status[j] != '-' && sim.batch[j] == 0 && (strings.HasPrefix(sim.item[j], "ev ") || strings.HasPrefix(sim.item[j], "wm ")) {
 						cand = append(cand, j)
 					}
 				}
@@ -1182,7 +1302,9 @@ func c02Schedule(r *lib.Rng, k int, scripts [][]string) []string {
 				sim.fail = true
 			}
 		case "noise":
-			switch r.Intn(3) {
+			switch r.Intn(4) {
+			case 3:
+				ops = append(ops, fmt.Sprintf("cancel %d", r.Intn(k))) // the client gives up on its call: nothing may change
 			case 0:
 				ops = append(ops, "state")
 			case 1:
@@ -1320,6 +1442,13 @@ func propC02() *lib.Prop {
 				// same with a sender that was already at the gate and a watermark that would fire a timer
 				c02Case(2, 2, "send 0 ev 61 1 5", "go 0", "send 0 wm 9", "go 0", "send 0 bar 1", "go 0", "send 1 wm 9", "send 1 bar 1", "go 1", "send 1 bar 1",
 					"gohold 1", "go 1", "resume", "state"),
+				// one HandleEventBatch call with the sender's barrier in the middle: alignment is decided per event, the
+				// event behind the barrier parks (seeded change C02-5)
+				c02Case(2, 1, "sendb 0 ev:61:1:0 bar:1 ev:61:9:0", "go 0", "go 0", "state", "go 0", "sendb 1 ev:62:2:0 bar:1", "go 1", "go 1", "go 0", "state"),
+				c02Case(2, 3, "sendb 0 bar:1 wm:9 ev:61:9:7", "go 0", "sendb 1 ev:61:1:5 wm:9 bar:1", "go 1", "go 1", "go 1", "go 0", "go 0", "tick", "state"),
+				// a parked call whose context is cancelled stays parked (seeded change C02-6)
+				c02Case(2, 1, "send 0 bar 1", "go 0", "send 0 ev 61 9 0", "cancel 0", "state", "go 0", "send 1 bar 1", "go 1", "go 0", "state"),
+				c02Case(2, 2, "sendb 0 bar:1 ev:61:9:0 bar:2", "go 0", "cancel 0", "cancel 1", "send 1 ev 62 1 0", "cancel 1", "go 1", "send 1 bar 1", "go 1", "go 0", "go 0", "state"),
 				// timers: a post-barrier watermark must not fire timers into checkpoint 1
 				c02Case(2, 3, "send 0 ev 61 1 5", "go 0", "tick", "send 0 wm 9", "go 0", "send 1 bar 1", "go 1", "send 1 wm 9", "state", "send 0 bar 1", "go 0", "go 1", "tick", "state"),
 			}
